@@ -10,7 +10,7 @@ import json
 import math
 
 from ..prng import Rng, derive
-from ..values import num, s, b, cls, tup, match
+from ..values import num, s, b, cls, tup, match, WILD
 from ..core import process_outcome, Stats, stable_hash
 
 INF = float("inf")
@@ -228,6 +228,10 @@ def gen_ir(seed):
                 ops.append(["ungrow", mi, n - rng.below(3)])
         elif x < 98 and p_vm:
             ops.append(["mut", rng.below(3), rng.below(3)])
+        elif x < 99 and rng.chance(0.5):
+            # a range built afresh with the bounds of a range that may be a key, after enough other ranges to turn the interpreter's
+            # range cache over: whether the two are == is the language's business, but the map must agree with ==
+            ops.append(["rangeconsist", mi])
         elif x < 99:
             # the caller changes the vector an enumeration handed out: later enumerations (of any map) must not see that
             ops.append(["enum_push", mi, rng.choice(["keys", "values", "items"])])
@@ -281,6 +285,10 @@ def render(ir):
         elif k == "mut":
             e("mv%d.push(%d);" % (op[1], i))
             continue
+        elif k == "rangeconsist":
+            body = ('var n%d = 0; for q in [200..201, 200..202, 200..203, 200..204, 200..205, 200..206, 200..207, 200..208, 200..209, 200..210] { n%d = n%d + 1; } '
+                    'var fresh = 0..3; print(("ev", %d, "rc", (rga == fresh) == %s.has_key(fresh), (fresh == rga) == (%s.get(fresh) != nil || %s.has_key(fresh)), %s.has_key(rga)));' % (
+                        i, i, i, i, m, m, m, m))
         elif k == "enum_push":
             body = 'var en = %s.%s(); en.push("junk%d"); print(("ev", %d, en.len()));' % (m, op[2], i, i)
         elif k == "grow":
@@ -354,6 +362,13 @@ def model(ir):
             probes.inc("map_grown_by_insert")
             ev.append((i, "plain", [num(i), s("grow"), num(len(mp)), num(0), num(op[2] - 1)]))
             probes.max("map_size", len(mp))
+            continue
+        if k == "rangeconsist":
+            has = find(mp, KEYS["r_a"][1]) is not None
+            probes.inc("range_key_consistency_probes")
+            # if rga is a key: has_key(fresh) is true exactly when rga == fresh. If it is not a key, nothing that is == to fresh can be
+            # a key either unless rga == fresh is false, so the equivalence is only asserted when rga is a key
+            ev.append((i, "plain", [num(i), s("rc"), b(True) if has else WILD, b(True) if has else WILD, b(has)]))
             continue
         if k == "enum_push":
             ev.append((i, "plain", [num(i), num(len(mp) + 1)]))
